@@ -51,13 +51,21 @@ def agreeProp (obs : List String) : String :=
 def buildErrTok : Gcs.BuildErr → String
   | .nTooBig => "err:ntoobig" | .pTooBig => "err:ptoobig"
 
-def parseBldOp (o : String) : Option GcsBuilder.Op :=
+/-- one token of a builder chain; `none` in the first component = "start from a fresh builder" (With* constructors) -/
+def parseBldOp (o : String) : Option (Bool × List GcsBuilder.Op) :=
   match o.splitOn ":" with
-  | ["k", k] => (bytes? k).map GcsBuilder.Op.setKey
-  | ["p", p] => (nat? p).map GcsBuilder.Op.setP
-  | ["m", m] => (nat? m).map GcsBuilder.Op.setM
-  | ["a", d] => (bytes? d).map GcsBuilder.Op.addEntry
-  | ["h", h] => (bytes? h).map fun h => GcsBuilder.Op.setKey (h.take 16)
+  | ["k", k] => (bytes? k).map fun k => (false, [GcsBuilder.Op.setKey k])
+  | ["p", p] => (nat? p).map fun p => (false, [GcsBuilder.Op.setP p])
+  | ["m", m] => (nat? m).map fun m => (false, [GcsBuilder.Op.setM m])
+  | ["a", d] => (bytes? d).map fun d => (false, [GcsBuilder.Op.addEntry d])
+  | ["h", h] => (bytes? h).map fun h => (false, [GcsBuilder.Op.setKey (h.take 16)])
+  | ["A", ds] => (list? bytes? ds).map fun ds => (false, ds.map GcsBuilder.Op.addEntry)
+  -- With* constructors: SetKey . SetP . SetM (. Preallocate) on a fresh builder; defaults P = 19, M = 784931
+  | ["w", ct, k, p, _n, m] => do
+    let k ← bytes? k; let p ← nat? p; let m ← nat? m
+    let key := k.take 16   -- DeriveKey: the first 16 bytes of the hash
+    let (p, m) := if ct == "k" || ct == "h" then (19, 784931) else (p, m)
+    pure (true, [GcsBuilder.Op.setKey key, .setP p, .setM m])
   | _ => none
 
 def parseInRef (i : String) : Option (Bytes × Nat) :=
@@ -127,7 +135,7 @@ def run : Runner
       pure { model := filterObs f ++ q }
   | "bld", [_, ops], _ => do
     let ops ← if ops == "-" then some [] else (ops.splitOn ";").mapM parseBldOp
-    let b := ops.foldl GcsBuilder.step {}
+    let b := ops.foldl (fun b (fresh, l) => l.foldl GcsBuilder.step (if fresh then {} else b)) ({} : GcsBuilder.Builder)
     let ks := match b.err with | some e => bErrTok e | none => Bytes.tok b.key
     pure { model := match GcsBuilder.Build sip b with
       | .ok f => s!"{ks} {filterObs f}"
